@@ -3,6 +3,7 @@ import Skc.Model.Capa
 import Skc.Model.Pen
 import Skc.Model.Det
 import Skc.Model.Conv
+import Skc.Model.Cuts
 import Skc.Gen.KernelsFloat
 /-! Line-protocol driver over the executable models (`lake exe skcdrv` or
     `lake env lean --run Driver.lean`): one operation per input line, one canonical output line
@@ -239,6 +240,27 @@ def handleKern (ws : List String) : String :=
       | some vs => " ".intercalate (vs.map bitsOf)
   | _ => "bad-op"
 
+def fmtCuts : Except Skc.CutsErr Unit → String
+  | .ok () => "ok"
+  | .error .width => "err:width"
+  | .error .spacing => "err:spacing"
+  | .error .inner => "err:inner"
+  | .error .surround => "err:surround"
+  | .error .range => "err:range"
+
+/-- `cutrow std n minSize k c_1 …` / `cutrow local n minSize c_1 …` → `ok | err:<kind>` -/
+def handleCutRow (ws : List String) : String :=
+  match ws with
+  | "std" :: n :: ms :: k :: rest =>
+    match n.toNat?, ms.toNat?, k.toNat?, rest.mapM (·.toInt?) with
+    | some n, some ms, some k, some row => fmtCuts (checkRow n ms k row)
+    | _, _, _, _ => "bad-op"
+  | "local" :: n :: ms :: rest =>
+    match n.toNat?, ms.toNat?, rest.mapM (·.toInt?) with
+    | some n, some ms, some row => fmtCuts (checkRowLocal n ms row)
+    | _, _, _ => "bad-op"
+  | _ => "bad-op"
+
 def handle (line : String) : String :=
   let ws := (line.trimAscii.toString.splitOn " ").filter (· ≠ "")
   match ws with
@@ -251,6 +273,7 @@ def handle (line : String) : String :=
   | "cbs" :: rest => handleCbs rest
   | "mw" :: rest => handleMw rest
   | "kern" :: rest => handleKern rest
+  | "cutrow" :: rest => handleCutRow rest
   | "s2d_coll" :: rest => handleConv "s2d_coll" rest
   | "d2s_coll" :: rest => handleConv "d2s_coll" rest
   | "s2d_cp" :: rest => handleConv "s2d_cp" rest
